@@ -182,6 +182,9 @@ func handPolicies() []*PolicySpec {
 		{Name: "styles", Ops: []Op{{Kind: "elements", Names: []string{"p", "span", "div", "b"}}, {Kind: "styles", Names: []string{"color", "width", "text-align", "background"}, Scope: "G"},
 			{Kind: "styles", Names: []string{"font-family"}, Scope: "E", ScopeEls: []string{"p"}}, {Kind: "styles", Names: []string{"float"}, Enum: []string{"left", "right"}, Scope: "M", ScopeRe: `^(b|i)$`}}},
 		{Name: "rawtext", Ops: []Op{{Kind: "elements", Names: []string{"iframe", "noscript", "xmp", "textarea", "title", "plaintext", "b"}}, {Kind: "comments"}}},
+		{Name: "rewrite-src", Ops: []Op{{Kind: "elements", Names: []string{"img", "iframe", "video", "audio", "source", "script", "embed", "track", "input", "b"}},
+			{Kind: "attrs", Names: []string{"src", "alt", "id"}, Scope: "G"}, {Kind: "schemes", Names: []string{"http", "https"}}, {Kind: "schemecustom", Scheme: "data", CB: "data"},
+			{Kind: "relative", B: true}, {Kind: "rewritesrc", CB: "proxy"}}},
 		{Name: "unsafe-script", Ops: []Op{{Kind: "elements", Names: []string{"script", "style", "b", "p"}}, {Kind: "unsafe", B: true}, {Kind: "comments"},
 			{Kind: "attrs", Names: []string{"type", "src"}, Scope: "E", ScopeEls: []string{"script", "style"}}}},
 		{Name: "unskip", Ops: []Op{{Kind: "elements", Names: []string{"script", "style", "b"}}, {Kind: "keep", Names: []string{"script", "style", "object"}}, {Kind: "elementsmatching", Re: `^s(cript|tyle)$`}}},
@@ -200,7 +203,8 @@ var urlFrags = []string{"http://example.org/a?b=c#d", "https://x.test/", "/rel/p
 var styleFrags = []string{"color: red", "color: RED", "color:#fff", "width: 10px", "text-align: center", "background: url(http://x/y.png)", "background: url(javascript:alert(1))",
 	"color: expression(alert(1))", "-webkit-color: red", "-moz--webkit-color: red", "COLOR: blue", "color: r\\65 d", "color: \\72 ed", "width: 1\\30 px", "font-family: 'a b', serif",
 	"float: left", "float: LEFT", "unknown-prop: x", "color: red !important", "/* c */ color: red", "color: red; width: 5px", "color", ": red", "color: ;", "{}", "color: red;;width:1px",
-	"text-decoration: underline overline", "z-index: 5", "opacity: 0.5", "color: \\0", "color: \\d800", "color: \\110000", "color: \\000072ed", "margin: 1px 2px", "display: none", "color: red\\", "font-size: 12px"}
+	"text-decoration: underline overline", "z-index: 5", "opacity: 0.5", "color: \\0", "color: \\d800", "color: \\110000", "color: \\000072ed", "margin: 1px 2px", "display: none", "color: red\\", "font-size: 12px",
+	"color: #fff", "color: #FFF", "width: 2px", "width: auto", "background: RED", "background: \\72 ed", "background: Green", "color: gree\\6E", "color: \\52 ed", "background: ur\\6C(http://x/y)", "color: blue", "color: \\000062lue", "width: \\32 px"}
 var relFrags = []string{"nofollow", "noopener", "noreferrer", "xnofollowx", "nonoopener", "NOFOLLOW", "a b", "nofollow noopener noreferrer", "", "me"}
 
 func attrValue(rng *rand.Rand, key string) string {
